@@ -94,8 +94,14 @@ def concretize_tokens(toks, m):
             x = t[1]
             if x[0] == "lit":
                 v = x[1].v if not isinstance(x[1].v, z3.ExprRef) else m.eval(x[1].v, model_completion=True).as_long()
-                out.append(("l", str(v) + (x[2] if len(x) > 2 else "")))
+                ty = x[2] if len(x) > 2 else ""
+                if ty[:1] == "i" and ty in INT_BITS and v >> (INT_BITS[ty] - 1): out.append(("p", "-", False)); v = (1 << INT_BITS[ty]) - v
+                out.append(("l", str(v) + ty))
+            elif x[0] == "charlit":
+                v = x[1].v if not isinstance(x[1].v, z3.ExprRef) else m.eval(x[1].v, model_completion=True).as_long(); out.append(("l", "'" + chr(v) + "'"))
             else: raise ValueError("symbolic literal %r" % (x,))
+        elif t[0] == "i" and not isinstance(t[1], str) and t[1][0] == "boollit":
+            v = t[1][1].v; v = v if isinstance(v, bool) else z3.is_true(m.eval(v, model_completion=True)); out.append(("i", "true" if v else "false"))
         else: out.append(t)
     return out
 
